@@ -364,6 +364,8 @@ class H3Stream:
     def __init__(self, stream_id: int) -> None:
         self.blocked = False
         self.blocked_frame_size: Optional[int] = None
+        self.blocked_frame_type: Optional[int] = None
+        self.blocked_push_id: Optional[int] = None
         self.buffer = b""
         self.receiving_ended = False
         self.sending_ended = False
@@ -820,14 +822,16 @@ class H3Connection:
         elif frame_type == FrameType.PUSH_PROMISE and stream.push_id is None:
             if not self._is_client:
                 raise FrameUnexpected("Clients must not send PUSH_PROMISE")
-            frame_buf = Buffer(data=frame_data)
-            try:
-                push_id = frame_buf.pull_uint_var()
-            except BufferReadError:
-                raise FrameError("PUSH_PROMISE frame is truncated")
-            headers = self._decode_headers(
-                stream.stream_id, frame_data[frame_buf.tell() :]
-            )
+            header_block = None  # resume a PUSH_PROMISE which was blocked
+            if frame_data is not None:
+                frame_buf = Buffer(data=frame_data)
+                try:
+                    stream.blocked_push_id = frame_buf.pull_uint_var()
+                except BufferReadError:
+                    raise FrameError("PUSH_PROMISE frame is truncated")
+                header_block = frame_data[frame_buf.tell() :]
+            push_id = stream.blocked_push_id
+            headers = self._decode_headers(stream.stream_id, header_block)
 
             # validate headers
             validate_push_promise_headers(headers)
@@ -838,7 +842,11 @@ class H3Connection:
                     category="http",
                     event="frame_parsed",
                     data=self._quic_logger.encode_http3_push_promise_frame(
-                        length=len(frame_data),
+                        length=(
+                            stream.blocked_frame_size
+                            if frame_data is None
+                            else len(frame_data)
+                        ),
                         headers=headers,
                         push_id=push_id,
                         stream_id=stream.stream_id,
@@ -1093,6 +1101,7 @@ class H3Connection:
             except pylsqpack.StreamBlocked:
                 stream.blocked = True
                 stream.blocked_frame_size = len(frame_data)
+                stream.blocked_frame_type = frame_type
                 break
 
         # remove processed data from buffer
@@ -1246,7 +1255,7 @@ class H3Connection:
             # resume headers
             http_events.extend(
                 self._handle_request_or_push_frame(
-                    frame_type=FrameType.HEADERS,
+                    frame_type=stream.blocked_frame_type,
                     frame_data=None,
                     stream=stream,
                     stream_ended=stream.receiving_ended and not stream.buffer,
@@ -1254,6 +1263,7 @@ class H3Connection:
             )
             stream.blocked = False
             stream.blocked_frame_size = None
+            stream.blocked_frame_type = None
 
             # resume processing
             if stream.buffer:
